@@ -85,7 +85,8 @@ class LabelEvaluator:
             ao = context.active_objectives if context.active_objectives is not None else np.ones((2, R), dtype=bool)
             ac = context.active_constraints if context.active_constraints is not None else np.ones((1, R), dtype=bool)
             act = np.vstack([ao, ac]).astype(bool)
-        self.calls.append({"labels": labels, "uvars": variables.copy(), "active": act})
+        self.calls.append({"labels": labels, "uvars": variables.copy(), "active": act,
+                           "summary": None if context.active is None else [bool(v) for v in context.active]})
         sig = (n, perts is None, tuple(map(tuple, labels)))
         if self.memo in ("arrays", "object") and sig in self.memo_store:
             stored = self.memo_store[sig]
@@ -112,7 +113,8 @@ class LabelEvaluator:
         k = len(self.calls)
         self.owned += [(f"call{k}.objectives", res.objectives, res.objectives.copy(), res, "objectives"),
                        (f"call{k}.constraints", res.constraints, res.constraints.copy(), res, "constraints"),
-                       (f"call{k}.info", res.evaluation_info["tag"], res.evaluation_info["tag"].copy(), None, None)]
+                       (f"call{k}.info", res.evaluation_info["tag"], res.evaluation_info["tag"].copy(), res.evaluation_info, "tag"),
+                       (f"call{k}.infodict", res.evaluation_info, None, res, "evaluation_info")]
         if self.memo in ("arrays", "object"):
             self.memo_store[sig] = res
         return res
@@ -120,9 +122,15 @@ class LabelEvaluator:
     def mutated(self):
         out = []
         for name, arr, pristine, holder, attr in self.owned:
-            if not np.array_equal(arr, pristine, equal_nan=True):
+            if isinstance(arr, dict):             # the evaluation_info dictionary itself: same object, same keys
+                if getattr(holder, attr) is not arr:
+                    out.append(name + ":rebound")
+                if sorted(arr) != ["tag"]:
+                    out.append(name + ":keys")
+                continue
+            if arr.shape != pristine.shape or not np.array_equal(arr, pristine, equal_nan=True):
                 out.append(name + ":content")
-            if holder is not None and getattr(holder, attr) is not arr:
+            if holder is not None and (holder.get(attr) if isinstance(holder, dict) else getattr(holder, attr)) is not arr:
                 out.append(name + ":rebound")
         return sorted(set(out))
 
@@ -149,7 +157,7 @@ def run(sc, garbage):
         res, outcome = outcome_of(lambda: ee.calculate(x, compute_functions=k in ("F", "FG"), compute_gradients=k in ("G", "FG")))
         ncalls = len(ev.calls) - before
         e = {"ev": "Call", "k": k, "pt": pt, "batch": batch, "R": R, "P": P, "tf": bool(cfg["tf"]), "outcome": outcome,
-             "ncalls": ncalls, "reqkind": "none", "labels": [], "uvars": [], "ovars": [], "active": [], "values": [],
+             "ncalls": ncalls, "reqkind": "none", "labels": [], "uvars": [], "ovars": [], "active": [], "summary": [], "values": [],
              "weights": [[num(1.0)] * R] * 3, "failedrow": [False] * R}
         if outcome == "ok" and ncalls == 1:
             c = ev.calls[-1]
@@ -159,6 +167,7 @@ def run(sc, garbage):
             e["labels"] = labels
             e["uvars"] = nums(c["uvars"], exact=(pt != 3))
             e["active"] = [] if c["active"] is None else [[bool(v) for v in row] for row in c["active"]]
+            e["summary"] = [] if c["summary"] is None else c["summary"]
             fr = [r for r in res if isinstance(r, FunctionResults)]
             gr = next((r for r in res if isinstance(r, GradientResults)), None)
             ures = _user(res, transforms)
@@ -213,6 +222,8 @@ def run(sc, garbage):
             break           # too few realizations: an optimization stops here, later calls would build on a failed evaluation
     # delivered results are immutable snapshots: scribble over everything the evaluator still holds, then re-hash
     for _, arr, _, _, _ in ev.owned:
+        if isinstance(arr, dict):
+            continue
         try:
             arr[...] = -12345.0
         except ValueError:
